@@ -247,6 +247,63 @@ func TestC19(t *testing.T) {
 			}
 		}
 	}
+	// ---- histories of two: the bytes of a serialised message are kept (in
+	// the resend queue, by the transport) while later messages are
+	// serialised. Every ordered pair (A, B) over a set of messages of every
+	// kind and of payload lengths on both sides of typical buffer sizes: A
+	// is serialised, then B, and only then are A's bytes deserialised.
+	type ser interface{ Serialize() ([]byte, error) }
+	var pool []ser
+	var poolDesc []string
+	var poolCheck []func(b []byte) bool
+	for _, ln := range []int{0, 1, 5, 64, 65, 1000, 70000} {
+		pl := payloadOf(ln)
+		for _, fl := range []int{0, 1} {
+			m := &gbn.PacketData{Seq: uint8(ln + fl), FinalChunk: fl == 1, Payload: pl}
+			pool = append(pool, m)
+			poolDesc = append(poolDesc, describe(m))
+			poolCheck = append(poolCheck, func(b []byte) bool {
+				m2, err := gbn.Deserialize(b)
+				return err == nil && msgEqual(m, m2)
+			})
+		}
+		ver := uint8(ln % 7)
+		md := mailbox.NewMsgData(ver, pl)
+		pool = append(pool, md)
+		poolDesc = append(poolDesc, fmt.Sprintf("MsgData{v=%d len=%d}", ver, ln))
+		poolCheck = append(poolCheck, func(b []byte) bool {
+			m2 := mailbox.NewMsgData(0, nil)
+			return m2.Deserialize(b) == nil && m2.ProtocolVersion() == ver && bytes.Equal(m2.Payload, pl)
+		})
+	}
+	for _, m := range []gbn.Message{&gbn.PacketACK{Seq: 7}, &gbn.PacketNACK{Seq: 9}, &gbn.PacketSYN{N: 20}, &gbn.PacketFIN{}, &gbn.PacketSYNACK{}} {
+		pool = append(pool, m)
+		poolDesc = append(poolDesc, describe(m))
+		poolCheck = append(poolCheck, func(b []byte) bool {
+			m2, err := gbn.Deserialize(b)
+			return err == nil && msgEqual(m, m2)
+		})
+	}
+	pairCases := 0
+	for i := range pool {
+		for j := range pool {
+			sa, err := pool[i].Serialize()
+			if err != nil {
+				continue
+			}
+			if _, err = pool[j].Serialize(); err != nil {
+				continue
+			}
+			pairCases++
+			if !poolCheck[i](sa) {
+				report("history/serialised-bytes-change-with-later-serialize",
+					fmt.Sprintf("%s was serialised, then %s; the bytes obtained for the first no longer deserialise to it", poolDesc[i], poolDesc[j]),
+					map[string]any{"first": poolDesc[i], "second": poolDesc[j]})
+			}
+		}
+	}
+	valCases += pairCases
+	r.Set("serialize_pair_histories", pairCases)
 	atomic.AddInt64(&evals, int64(valCases))
 
 	// ---- bytes -> value -> bytes -> value, GBN: every string of length
